@@ -48,8 +48,10 @@ type reqJ struct {
 	Plen       int    `json:"plen,omitempty"`
 	Chunk      string `json:"chunk,omitempty"`
 	PayloadHex string `json:"payloadHex,omitempty"`
-	Stream     string `json:"stream,omitempty"` // hex: raw bytes, framed by the protocol tables
-	Cut        int    `json:"cut,omitempty"`    // send only the first Cut bytes of the frame (>0)
+	Stream     string `json:"stream,omitempty"`  // hex: raw bytes, framed by the protocol tables
+	Cut        int    `json:"cut,omitempty"`     // send only the first Cut bytes of the frame (>0)
+	Stall      bool   `json:"stall,omitempty"`   // with Cut: stay silent afterwards instead of hanging up (the read timeout must end the connection)
+	DelayMs    int    `json:"delayMs,omitempty"` // wait before sending this request
 }
 
 type connJ struct {
@@ -115,6 +117,7 @@ type sessionEnv struct {
 	srvErr   chan error
 	index    int
 	viewGen  int
+	stall    bool
 	chunkNo  int
 	chunkTag map[string]byte
 
@@ -231,7 +234,7 @@ func (env *sessionEnv) runConcurrent(nodes []nodeJ, views []map[string]interface
 		}
 		sub.lastFP = fp
 		sub.em.emit(map[string]interface{}{"ev": "World", "name": fmt.Sprintf("%s/c%d", wj.Name, cj.ID), "aw": wj.Aw, "nodes": first,
-			"views": views, "root": wj.RootSpelling, "index": env.index})
+			"views": views, "root": wj.RootSpelling, "index": env.index, "timeoutMs": wj.ReadTimeoutMs})
 		wg.Add(1)
 		go func(sub *sessionEnv, cj *connJ) {
 			defer wg.Done()
@@ -404,7 +407,7 @@ func runWorld(pt *protoTable, wj *worldJ, em *emitter, index int) error {
 	}
 	if wj.Schedule != "conc" {
 		em.emit(map[string]interface{}{"ev": "World", "name": wj.Name, "aw": wj.Aw, "nodes": nodes, "views": viewsOut,
-			"root": wj.RootSpelling, "index": index})
+			"root": wj.RootSpelling, "index": index, "timeoutMs": wj.ReadTimeoutMs})
 	}
 
 	switch wj.Schedule {
@@ -579,7 +582,7 @@ func (env *sessionEnv) connect(cj *connJ) *memConn {
 	c.readChunk = env.wj.ReadChunk
 	env.ln.Dial(c)
 	c.WaitQuiescent(10 * time.Second)
-	env.em.emit(map[string]interface{}{"ev": "Connect", "c": cj.ID})
+	env.em.emit(map[string]interface{}{"ev": "Connect", "c": cj.ID, "arms": c.TakeArms()})
 	return c
 }
 
@@ -717,6 +720,11 @@ func (env *sessionEnv) doReq(c *memConn, cj *connJ, r *reqJ) bool {
 	if err != nil {
 		panic(err)
 	}
+	if r.DelayMs > 0 {
+		time.Sleep(time.Duration(r.DelayMs) * time.Millisecond)
+	}
+	env.stall = r.Stall
+	defer func() { env.stall = false }()
 	if r.Cut > 0 && r.Cut < len(frameBytes) {
 		return env.exchange(c, cj, "TRUNCATED", map[string]interface{}{"op": "TRUNCATED", "path": []string{}, "limit": pos(0), "off": pos(0),
 			"start": 0, "count": 0, "plen": 0, "chunk": "", "hugeArgs": false, "of": r.Op, "cut": r.Cut, "bad": []string{}}, frameBytes[:r.Cut], nil)
@@ -794,10 +802,17 @@ func (env *sessionEnv) exchange(c *memConn, cj *connJ, op string, req map[string
 	c.Send(frameBytes)
 	quiet := c.WaitQuiescent(60 * time.Second)
 	incomplete := op == "TRUNCATED"
+	stalled := false
 	if incomplete && quiet && !c.ServerClosed() {
-		// the server waits for the rest of the request; the client gives up
-		c.ClientClose()
-		c.WaitClosed(10 * time.Second)
+		if env.stall {
+			// stay silent: only the read timeout can end this
+			stalled = true
+			c.WaitClosed(time.Duration(env.wj.ReadTimeoutMs)*time.Millisecond + 5*time.Second)
+		} else {
+			// the server waits for the rest of the request; the client gives up
+			c.ClientClose()
+			c.WaitClosed(10 * time.Second)
+		}
 	}
 	out := c.TakeOutput()
 	closed := c.ServerClosed()
@@ -831,7 +846,11 @@ func (env *sessionEnv) exchange(c *memConn, cj *connJ, op string, req map[string
 	}
 	ev := map[string]interface{}{"ev": "Req", "c": cj.ID, "req": req, "resp": resp, "closed": closed,
 		"hang": !quiet, "consumed": c.Consumed(), "pending": c.Pending(),
-		"faults": env.ledger.FaultsApplied() - faultsBefore, "fsops": env.ledger.OpCount() - opsBefore}
+		"faults": env.ledger.FaultsApplied() - faultsBefore, "fsops": env.ledger.OpCount() - opsBefore,
+		"arms": c.TakeArms(), "stalled": stalled, "cutAfterMs": -1, "deadlineHit": false}
+	if stalled {
+		ev["cutAfterMs"], ev["deadlineHit"] = c.CutAfterMs()
+	}
 	nodes, fp, err := env.snap()
 	if err != nil {
 		ev["mut"] = true
@@ -893,8 +912,9 @@ func (env *sessionEnv) endConn(c *memConn, cj *connJ) {
 	if env.priv != nil {
 		h = 0
 	}
+	cut, hit := c.CutAfterMs()
 	env.em.emit(map[string]interface{}{"ev": "Close", "c": cj.ID, "handles": h, "serverClosed": ok,
-		"how": cj.End})
+		"how": cj.End, "cutAfterMs": cut, "deadlineHit": hit, "arms": c.TakeArms()})
 }
 
 // probe: a fresh connection must still be served (STAT of the root answers).
